@@ -107,6 +107,7 @@ class PairSim(Sim):
         self.inprogress = 0
         self.resend_serving = {"A": False, "B": False}
         self.break_ctx = []
+        self.dirty_epochs = set()
         self.spawn(self._start_server(), "B-connect")
         self.loop.call_later(cfg["start_offset"], self._start_client)
 
@@ -252,6 +253,9 @@ class PairSim(Sim):
                 self.probe("resend_request_served")
             elif st == ConnectionState.RESENDREQ_AWAITING:
                 self.probe("resend_request_sent")
+            if st in (ConnectionState.RESENDREQ_HANDLING, ConnectionState.RESENDREQ_AWAITING,
+                      ConnectionState.RECV_SEQNUM_TOO_HIGH) and self.net.conns:
+                self.dirty_epochs.add(self.net.conns[-1].cid)
         elif kind == "on_disconnect":
             pass
 
@@ -293,6 +297,40 @@ class PairSim(Sim):
         ain, aout = self.counters("A")
         bin_, bout = self.counters("B")
         return ain == bout and bin_ == aout
+
+    def boundary_check(self):
+        """Quiescent instant on a live connection: the Logon exchange has completed (both ACTIVE),
+        nothing is in flight, no task is runnable or parked in a send or a hook -- the counters
+        must agree now, not only at the end of the run (TCP loses nothing on a live connection)."""
+        if not self.net.conns or self.loop._ready or self.pending_hooks or self.inprogress:
+            return
+        conn = self.net.conns[-1]
+        if conn.broken or conn.partitioned or conn.q[0] or conn.q[1] or conn.closed[0] or conn.closed[1]:
+            return
+        if conn.tr[0] is None or conn.tr[1] is None or conn.tr[0].paused or conn.tr[1].paused:
+            return
+        a, b = self.eps["A"], self.eps["B"]
+        if a.connection_state != ACTIVE or b.connection_state != ACTIVE:
+            return
+        if conn.tr[0]._lost_called or conn.tr[1]._lost_called:
+            return
+        ain, aout = self.counters("A")
+        bin_, bout = self.counters("B")
+        if conn.cid in self.dirty_epochs:
+            # a resend recovery ran on this connection: a new message written in the middle of a
+            # replay is dropped by the awaiting side and re-requested on the next inbound frame
+            # (heartbeat at the latest) -- that is judged by the bounded-liveness clause at the end
+            if ain != bout or bin_ != aout:
+                self.probe("counters_disagree_at_rest_after_resend_recovery")
+            return
+        self.stat("quiescent_instants_checked")
+        if ain != bout or bin_ != aout:
+            raise Violation(
+                "counters",
+                f"C07/counters-disagree-at-rest-on-clean-connection/{self.mechanism()}",
+                f"both ACTIVE on a live connection with nothing in flight at t=+{self.loop.time() - 1_700_000_000.0:.2f}s: "
+                f"A(in={ain},out={aout}) B(in={bin_},out={bout})",
+            )
 
     # ----------------------------------------------------------------- judge
     def mechanism(self):
